@@ -220,14 +220,22 @@ class CaseWhen(Generic[A, B], Evaluatable[B]):
         self.default = default
 
     def _evaluate(self, value: A, options: Options) -> Evaluatable[B]:
+        chosen: MaybeMissing[Evaluatable[B]] = self.default
+        consulted = []
         for condition, result in self.cases:
+            consulted.append(condition)
             if condition.evaluate(options)(value):
-                return result
+                chosen = result
+                break
 
-        if self.default is not MISSING:
-            return self.default
+        if chosen is MISSING:
+            raise CaseWhenError(self.dispatch, value)
 
-        raise CaseWhenError(self.dispatch, value)
+        # The choice depends on every condition consulted so far
+        for condition in consulted:
+            chosen = _DependsOn(chosen, condition)  # type: ignore  [arg-type]
+
+        return chosen
 
     def _bound(self, options: Options) -> Evaluatable[B]:
         return self.dispatch.bind(functools.partial(self._evaluate, options=options))
